@@ -6,6 +6,7 @@ import (
 	"encoding/hex"
 	"fmt"
 	"io"
+	"math/bits"
 
 	"github.com/libsv/go-bk/crypto"
 
@@ -531,6 +532,9 @@ func (tx *Tx) IsFeePaidEnough(fees *FeeQuote) (bool, error) {
 	if err != nil {
 		return false, err
 	}
+	if enough, wide := tx.feePaidOnWideSums(expFeesPaid.TotalFeePaid); wide {
+		return enough, nil
+	}
 	totalInputSatoshis := tx.TotalInputSatoshis()
 	totalOutputSatoshis := tx.TotalOutputSatoshis()
 
@@ -540,6 +544,29 @@ func (tx *Tx) IsFeePaidEnough(fees *FeeQuote) (bool, error) {
 
 	actualFeePaid := totalInputSatoshis - totalOutputSatoshis
 	return actualFeePaid >= expFeesPaid.TotalFeePaid, nil
+}
+
+// feePaidOnWideSums decides fee sufficiency when the sum of the input or of the
+// output amounts does not fit 64 bits (the uint64 totals would wrap and make
+// outputs that exceed the inputs look paid for). wide is false when both fit.
+func (tx *Tx) feePaidOnWideSums(fee uint64) (enough, wide bool) {
+	var inHi, inLo, outHi, outLo, c uint64
+	for _, in := range tx.Inputs {
+		inLo, c = bits.Add64(inLo, in.PreviousTxSatoshis, 0)
+		inHi += c
+	}
+	for _, out := range tx.Outputs {
+		outLo, c = bits.Add64(outLo, out.Satoshis, 0)
+		outHi += c
+	}
+	if inHi == 0 && outHi == 0 {
+		return false, false
+	}
+	if inHi < outHi || (inHi == outHi && inLo < outLo) {
+		return false, true
+	}
+	dLo, b := bits.Sub64(inLo, outLo, 0)
+	return inHi-outHi-b > 0 || dLo >= fee, true
 }
 
 // EstimateIsFeePaidEnough will calculate the fees that this transaction is paying
@@ -554,6 +581,9 @@ func (tx *Tx) EstimateIsFeePaidEnough(fees *FeeQuote) (bool, error) {
 	expFeesPaid, err := tempTx.feesPaid(tempTx.SizeWithTypes(), fees)
 	if err != nil {
 		return false, err
+	}
+	if enough, wide := tempTx.feePaidOnWideSums(expFeesPaid.TotalFeePaid); wide {
+		return enough, nil
 	}
 	totalInputSatoshis := tempTx.TotalInputSatoshis()
 	totalOutputSatoshis := tempTx.TotalOutputSatoshis()
